@@ -91,9 +91,49 @@ var c28Exceptions = []lockException{
 	{"New", "EventsBuffer.incompletes", "constructor: the buffer is not yet shared"},
 }
 
+// c28WidenExceptions extends each (function, field) exception to the code that runs only as part of
+// that function: unexported helpers of the analysed packages all of whose call sites lie in functions
+// the exception already covers, and function literals written inside such functions. The reason given
+// for the exception is about what the operation has established before the access, so it holds for a
+// loop or block of the operation that is moved into a helper of its own.
+func c28WidenExceptions(res *core.LockResult, exceptions []lockException) []lockException {
+	out := append([]lockException(nil), exceptions...)
+	for _, e := range exceptions {
+		covered := map[string]bool{e.Func: true}
+		for changed := true; changed; {
+			changed = false
+			for _, f := range res.Analysed {
+				nm := short(f.Name)
+				if covered[nm] {
+					continue
+				}
+				ok := false
+				switch {
+				case f.Obj == nil:
+					// literal: covered with its enclosing function
+					ok = f.Parent != nil && covered[short(f.Parent.Name)]
+				case !f.Obj.Exported() && len(res.CallIns[f]) > 0:
+					ok = true
+					for _, ci := range res.CallIns[f] {
+						if !covered[short(ci.Caller.Name)] {
+							ok = false
+						}
+					}
+				}
+				if ok {
+					covered[nm] = true
+					changed = true
+					out = append(out, lockException{nm, e.Field, e.Reason + " (" + nm + " runs only as part of " + e.Func + ")"})
+				}
+			}
+		}
+	}
+	return out
+}
+
 func init() {
 	register("C28", "other", "T1 LockSet, T12 Purity, atomicity (single critical section)",
-		"Decides the lock discipline that race freedom and linearizability of the five thread-safe components depend on: every access to a guarded field holds its mutex (write mode for writes and for calls classified mutating by the purity analysis), every exit releases what it acquired, helper functions are checked with the meet of the lock states at all their call sites, and every exported operation touches guarded state inside one critical section (so lock order is a linearization order). Sequential correctness of each operation is not decided here (C22/C29/C30).",
+		"Decides the lock discipline that race freedom and linearizability of the five thread-safe components depend on: every access to a guarded field holds its mutex (write mode for writes and for calls classified mutating by the purity analysis), every exit releases what it acquired, helper functions are checked with the meet of the lock states at all their call sites, and every exported operation touches guarded state inside one critical section (so lock order is a linearization order); an operation that does run several critical sections of its own mutex (inline or through methods of the same receiver that lock themselves) must neither overwrite blindly what an earlier section read (C28.rmw) nor see in separate sections fields that a writer updates together (C28.views, view consistency). Lock exceptions granted to a function extend to unexported helpers called only from it. Sequential correctness of each operation is not decided here (C22/C29/C30).",
 		[]string{"lock identity is by mutex field, not by instance (RacerD-style)", "unexported helpers have no callers outside their package; exported methods are assumed to be entered with no lock held", "constructors (composite literals) publish the object only after initialisation"},
 		runC28)
 }
@@ -105,7 +145,7 @@ func runC28(c *core.Ctx) {
 			c.Fld(f)
 		}
 		res := core.RunLockset(p, flushableLockSpec())
-		n := reportLockset(c, res, c28Exceptions, nil)
+		n := reportLockset(c, res, c28WidenExceptions(res, c28Exceptions), nil)
 		c.ExpectAtLeast("flushable/pool (function,field) access groups", n, 35)
 		c.Extra["flushable_acquires"] = res.Acquires
 	})
@@ -145,7 +185,7 @@ func runC28(c *core.Ctx) {
 			c.Fld(f)
 		}
 		res := core.RunLockset(p, spec)
-		n := reportLockset(c, res, c28Exceptions, nil)
+		n := reportLockset(c, res, c28WidenExceptions(res, c28Exceptions), nil)
 		c.ExpectAtLeast("ordering-buffer access groups", n, 8)
 	})
 	c.Clause("C28.atomic", func() {
